@@ -24,14 +24,14 @@ vars == <<hist, pc, loads, live, files, nextid, v_emit>>
 
 Loaders == <<"string", "memory", "fs">>
 Kinds == <<"ok", "syn0", "syn1", "syn2", "syn3", "syn5", "syn8", "lexerr", "runtime", "missing", "incsyn", "dir", "incdir",
-          "extuse", "extusealias", "lexuni", "opsplit", "bigtail">>   \* bigtail: a syntax error followed by 16 MB of source the parser never asks for (a tokeniser that reads on after the call has returned is still a goroutine held by the library); opsplit: after a syntax error, two-word operators whose words are apart by more than one blank; dir: the name is a directory; extuse*: a template that extends a parent and whose use fails at run time; lexuni: a non-ASCII letter where an expression is expected
+          "extuse", "extusealias", "lexuni", "opsplit", "bigtail", "deeprej">>   \* deeprej: a template read to its end and then refused because its tree is too deep (a long interpolated string); whatever examines the tree ends with the call; bigtail: a syntax error followed by 16 MB of source the parser never asks for (a tokeniser that reads on after the call has returned is still a goroutine held by the library); opsplit: after a syntax error, two-word operators whose words are apart by more than one blank; dir: the name is a directory; extuse*: a template that extends a parent and whose use fails at run time; lexuni: a non-ASCII letter where an expression is expected
 Apis == <<"execute", "parse">>
 NOp == Len(Loaders) * Len(Kinds) * Len(Apis)
 Op(j) == [loader |-> Loaders[(j % 3) + 1], kind |-> Kinds[((j \div 3) % Len(Kinds)) + 1], api |-> Apis[((j \div (3 * Len(Kinds))) % 2) + 1]]
 (* number of templates a call loads (entry + include) and whether the parser stops early in the last of them *)
 NLoads(op) == CASE op.kind \in {"missing", "dir"} -> 0 [] op.kind \in {"ok", "runtime", "incsyn", "extuse"} /\ op.api = "execute" -> 2
                 [] op.kind = "extusealias" /\ op.api = "execute" -> 3 [] OTHER -> 1
-StopsEarly(op) == op.kind \notin {"ok", "runtime", "missing", "extuse", "extusealias"}
+StopsEarly(op) == op.kind \notin {"ok", "runtime", "missing", "extuse", "extusealias", "deeprej"}
 
 RECURSIVE PowO(_)
 PowO(n) == IF n = 0 THEN 1 ELSE NOp * PowO(n - 1)
